@@ -42,3 +42,7 @@ pub mod tdigest;
 pub mod theta;
 
 mod hash;
+
+#[cfg(feature = "verif-hooks")]
+#[doc(hidden)]
+pub mod verif;
